@@ -91,28 +91,44 @@ def flipPick (e1 e2 : Expr) : Option (Expr × Expr × Expr × Expr) :=
   | .bin _ o1 l1 r1, .bin _ o2 l2 r2 => if flipPair o1 o2 then some (l1, r2, r1, l2) else none
   | _, _ => none
 
+/-- `exprTok` is `!x` -/
+def Expr.notArg : Expr → Option Expr
+  | .un _ .lnot x => some x
+  | _ => none
+
+/-- astutils.cpp:1685-1691: the Known int value on one side of the `==`/`!=`, and the other side -/
+def eqNeKnown (l r : Expr) : Option (Int × Expr) :=
+  match l.ann.known with
+  | some k => some (k, r)
+  | none =>
+    match r.ann.known with
+    | some k => some (k, l)
+    | none => none
+
+/-- astutils.cpp:1696-1705 -/
+def eqNeCompare (k : Int) (exprIsNot : Bool) (op : BinOp) : Bool :=
+  (k == 0 && exprIsNot && op == .eq) || (k == 0 && !exprIsNot && op == .ne) ||
+  (k != 0 && exprIsNot && op == .ne) || (k != 0 && !exprIsNot && op == .eq)
+
+def Expr.isCmp : Expr → Bool
+  | .bin _ o _ _ => o.isCmp
+  | _ => false
+
 /-- astutils.cpp:1672–1709 for `condTok` (an `==`/`!=` token) against `exprTok` (with parent kind `ce`): the pair
     (`varTok1`, `varTok2`) on which `isSameExpression` recurses, with their parent kinds -/
 def eqNeCond (cond : Expr) (ce : Ctx) (expr : Expr) : Option (Ctx × Expr × Ctx × Expr) :=
   match cond with
   | .bin _ op l r =>
-    if (match expr with | .bin _ o _ _ => o.isCmp | _ => false) then none
+    if expr.isCmp then none
     else
-      let vv : Option (Int × Expr) :=
-        match l.ann.known with
-        | some k => some (k, r)
-        | none => match r.ann.known with
-          | some k => some (k, l)
-          | none => none
-      match vv with
+      match eqNeKnown l r with
       | none => none
       | some (k, varTok1) =>
-        let exprIsNot := match expr with | .un _ .lnot _ => true | _ => false
-        let cv2 := match expr with | .un _ .lnot _ => Ctx.lnot | _ => ce
-        let varTok2 := match expr with | .un _ .lnot x => x | _ => expr
-        let compare := (k == 0 && exprIsNot && op == .eq) || (k == 0 && !exprIsNot && op == .ne) ||
-                       (k != 0 && exprIsNot && op == .ne) || (k != 0 && !exprIsNot && op == .eq)
-        if compare && boolLike .cop varTok1 && boolLike cv2 varTok2 then some (.cop, varTok1, cv2, varTok2) else none
+        match expr.notArg with
+        | some x =>
+          if eqNeCompare k true op && boolLike .cop varTok1 && boolLike .lnot x then some (.cop, varTok1, .lnot, x) else none
+        | none =>
+          if eqNeCompare k false op && boolLike .cop varTok1 && boolLike ce expr then some (.cop, varTok1, ce, expr) else none
   | _ => none
 
 def Expr.isEqNe : Expr → Bool
@@ -233,10 +249,6 @@ def oppTable (isNot : Bool) (c1 c2 : BinOp) : Bool :=
               (c1 == .eq && (c2 == .ne || c2 == .gt || c2 == .lt)) ||
               ((c1 == .ne || c1 == .gt || c1 == .lt) && c2 == .eq)))
 
-def Expr.isCmp : Expr → Bool
-  | .bin _ o _ _ => o.isCmp
-  | _ => false
-
 def Expr.binOp? : Expr → Option BinOp
   | .bin _ o _ _ => some o
   | _ => none
@@ -335,12 +347,9 @@ def eqNeSafe : Expr → Bool
   | .bin _ op l r =>
     eqNeSafe l && eqNeSafe r &&
     (!(op == .eq || op == .ne) ||
-      (match l.ann.known with
-       | some k => k == 0 || k == 1 || !boolLike .cop r
-       | none =>
-         match r.ann.known with
-         | some k => k == 0 || k == 1 || !boolLike .cop l
-         | none => true))
+      (match eqNeKnown l r with
+       | some (k, vt) => k == 0 || k == 1 || !boolLike .cop vt
+       | none => true))
 
 def subRange (a b : Ty) : Bool := decide (tmin b ≤ tmin a) && decide (tmax a ≤ tmax b)
 
